@@ -246,6 +246,11 @@ class Policy:
                 raise AnalysisError("_check_attr: hasattr on %s" % A.src(e.args[1]))
             if d == "bool" and len(e.args) == 1:
                 return _truth(self.ev(e.args[0], env))
+            if d in ("type", "id") and len(e.args) == 1:
+                self.ev(e.args[0], env)
+                return Sym(d)
+            if d and d.startswith("self.") and d.count(".") == 2 and d.split(".")[1] != "_config":
+                raise StaleState(d.split(".")[1])
             if d and d.startswith("self.") and d.count(".") == 1:
                 f = self.ctx.repo.method(self.ctx.cls(K.CONN), d[5:])
                 if f is not None:
@@ -258,6 +263,8 @@ class Policy:
             raise AnalysisError("_check_attr: unsupported call %s" % A.src(e))
         if isinstance(e, ast.IfExp):
             return self.ev(e.body, env) if _truth(self.ev(e.test, env)) else self.ev(e.orelse, env)
+        if isinstance(e, ast.Tuple):
+            return tuple(self.ev(x, env) for x in e.elts)
         raise AnalysisError("_check_attr: unsupported expression %s" % A.src(e))
 
 
@@ -351,9 +358,10 @@ def check_decision_table(ctx, rep):
                     r = pol.call_function(f, ["SELF", "OBJ", Sym("name"), perm_key])
                 except StaleState as st_:
                     rep.ob("R06.3", "_check_attr: the decision reads only the connection's live configuration", False,
-                           "the policy consults self.%s instead of the configuration dictionary: a configuration change made "
-                           "after construction (e.g. the blanket permissions a classic-mode service grants itself on connect, or "
-                           "switching exposed attributes off) is ignored" % st_.field, f.loc)
+                           "the policy consults self.%s instead of deciding from (configuration, name, operation) alone: an "
+                           "answer remembered in connection state ignores the operation's own switch (a name once readable becomes "
+                           "writable/deletable) and configuration changes made after construction (e.g. the blanket permissions a "
+                           "classic-mode service grants itself on connect)" % st_.field, f.loc)
                     return rows
                 val = r[1] if r else None
                 if isinstance(val, Sym):
